@@ -732,3 +732,257 @@ func checkSharedEntriesRefCounted(c *core.Ctx) {
 		}
 	}
 }
+
+// checkEveryCyclePolls (R07.6, R07.7): under close-on-context-done every cycle a guest can run in reaches a poll of the
+// closed flag. Loops and tail calls are R07.1; the remaining cycles consist of plain calls – every one of them enters a
+// function (R07.6: the function entry polls) and, when it passes through a host function calling back, a Call (R07.7: the
+// call entry polls the flag itself, not only ctx.Done).
+func checkEveryCyclePolls(c *core.Ctx) {
+	// R07.7: call entries
+	for _, e := range []struct{ name, rel string }{{"interpreter", "internal/engine/interpreter"}, {"compiler", wzv}} {
+		p := c.Pkg(e.rel)
+		if p == nil {
+			continue
+		}
+		info := p.TypesInfo
+		found := false
+		core.AllFuncDecls(p, func(fd *ast.FuncDecl) {
+			ast.Inspect(fd.Body, func(x ast.Node) bool {
+				sel, ok := x.(*ast.SelectStmt)
+				if !ok {
+					return true
+				}
+				// the ctx.Done pre-check of a call entry: a select with a <-ctx.Done() case and a default
+				var deflt *ast.CommClause
+				done := false
+				for _, cl := range sel.Body.List {
+					cc := cl.(*ast.CommClause)
+					if cc.Comm == nil {
+						deflt = cc
+						continue
+					}
+					if strings.Contains(core.ExprStr(commExpr(cc.Comm)), "Done()") {
+						done = true
+					}
+				}
+				if !done || deflt == nil {
+					return true
+				}
+				// only the entries under the termination flag
+				if !underFlag(fd, sel) {
+					return true
+				}
+				found = true
+				polls := false
+				for _, st := range deflt.Body {
+					ast.Inspect(st, func(y ast.Node) bool {
+						if call, ok := y.(*ast.CallExpr); ok {
+							if f := core.Callee(info, call); f != nil && f.Name() == "FailIfClosed" {
+								polls = true
+							}
+						}
+						return true
+					})
+				}
+				c.Check(polls, "R07.7", e.name+" "+fd.Name.Name+": the call entry polls the closed flag", sel.Pos(),
+					"FailIfClosed is called when the context is not done yet",
+					"the call entry only looks at ctx.Done(): a module closed from another goroutine (CloseWithExitCode) is not noticed by a cycle that passes through a host function calling back into the module – each nested Call gets a fresh stack, so neither a loop header nor the stack ceiling is ever reached")
+				return true
+			})
+		})
+		if !found {
+			c.Undecided("R07.7", e.name+": ctx.Done pre-check of the call entry", 0, "not found")
+		}
+	}
+	// R07.6 interpreter: the function that runs a body polls before its dispatch loop, under the flag
+	if p := c.Pkg("internal/engine/interpreter"); p != nil {
+		info := p.TypesInfo
+		loop := interpExecLoopName(p)
+		core.AllFuncDecls(p, func(fd *ast.FuncDecl) {
+			if fd.Name.Name != loop {
+				return
+			}
+			var firstLoop token.Pos
+			for _, st := range fd.Body.List {
+				if _, ok := st.(*ast.ForStmt); ok && firstLoop == 0 {
+					firstLoop = st.Pos()
+				}
+			}
+			polls := false
+			for _, st := range fd.Body.List {
+				if firstLoop != 0 && st.Pos() >= firstLoop {
+					break
+				}
+				is, ok := st.(*ast.IfStmt)
+				if !ok || !strings.Contains(core.ExprStr(is.Cond), "ensureTermination") {
+					continue
+				}
+				ast.Inspect(is.Body, func(y ast.Node) bool {
+					if call, ok := y.(*ast.CallExpr); ok {
+						if f := core.Callee(info, call); f != nil {
+							if f.Name() == "FailIfClosed" {
+								polls = true
+							}
+							core.AllFuncDecls(p, func(g *ast.FuncDecl) {
+								if info.Defs[g.Name] == types.Object(f) {
+									ast.Inspect(g.Body, func(z ast.Node) bool {
+										if c2, ok := z.(*ast.CallExpr); ok {
+											if f2 := core.Callee(info, c2); f2 != nil && f2.Name() == "FailIfClosed" {
+												polls = true
+											}
+										}
+										return true
+									})
+								}
+							})
+						}
+					}
+					return true
+				})
+			}
+			c.Check(polls, "R07.6", "interpreter: entering a function polls the closed flag under the termination flag", fd.Pos(),
+				"before its dispatch loop "+fd.Name.Name+" calls FailIfClosed when ensureTermination is set",
+				fd.Name.Name+" does not poll when a function is entered: a recursion that never gets deep (f(n){f(n-1); f(n-1)}, 2^63 calls at depth 62) contains neither a loop header nor a tail call and is not stopped by cancel, deadline or close")
+		})
+	}
+	// R07.6 compiler: the function-entry lowering emits the check under the flag
+	if p := c.Pkg("internal/engine/wazevo/frontend"); p != nil {
+		info := p.TypesInfo
+		// the emitter of the check: the function that loads the check trampoline address
+		emitters := map[string]bool{}
+		core.AllFuncDecls(p, func(fd *ast.FuncDecl) {
+			ast.Inspect(fd.Body, func(x ast.Node) bool {
+				if se, ok := x.(*ast.SelectorExpr); ok && strings.Contains(se.Sel.Name, "CheckModuleExitCode") {
+					emitters[fd.Name.Name] = true
+				}
+				return true
+			})
+		})
+		found := false
+		core.AllFuncDecls(p, func(fd *ast.FuncDecl) {
+			// the function-entry lowering: the one that emits the listener's before call / pushes the function control frame
+			isEntry := false
+			ast.Inspect(fd.Body, func(x ast.Node) bool {
+				if kv, ok := x.(*ast.KeyValueExpr); ok && core.ExprStr(kv.Key) == "kind" && strings.Contains(core.ExprStr(kv.Value), "controlFrameKindFunction") {
+					isEntry = true
+				}
+				return true
+			})
+			if !isEntry {
+				return
+			}
+			found = true
+			polls := false
+			ast.Inspect(fd.Body, func(x ast.Node) bool {
+				is, ok := x.(*ast.IfStmt)
+				if !ok || !strings.Contains(core.ExprStr(is.Cond), "ensureTermination") {
+					return true
+				}
+				ast.Inspect(is.Body, func(y ast.Node) bool {
+					if call, ok := y.(*ast.CallExpr); ok {
+						if f := core.Callee(info, call); f != nil && emitters[f.Name()] {
+							polls = true
+						}
+					}
+					return true
+				})
+				return true
+			})
+			c.Check(polls, "R07.6", "compiler: entering a function polls the closed flag under the termination flag", fd.Pos(),
+				fd.Name.Name+" emits the check at function entry when ensureTermination is set",
+				fd.Name.Name+" emits the termination check only at loop headers and tail calls, not at function entry: a recursion that never gets deep (f(n){f(n-1); f(n-1)}, 2^63 calls at depth 62) contains neither and is not stopped by cancel, deadline or close on the compiler")
+		})
+		if !found {
+			c.Undecided("R07.6", "compiler: function-entry lowering", 0, "not found")
+		}
+	}
+}
+
+func commExpr(st ast.Stmt) ast.Expr {
+	switch y := st.(type) {
+	case *ast.ExprStmt:
+		return y.X
+	case *ast.AssignStmt:
+		if len(y.Rhs) == 1 {
+			return y.Rhs[0]
+		}
+	}
+	return &ast.Ident{Name: "_"}
+}
+
+// underFlag: target lies inside an if-statement of fd whose condition mentions the termination flag.
+func underFlag(fd *ast.FuncDecl, target ast.Node) bool {
+	r := false
+	ast.Inspect(fd.Body, func(x ast.Node) bool {
+		if is, ok := x.(*ast.IfStmt); ok && strings.Contains(core.ExprStr(is.Cond), "nsureTermination") {
+			if is.Body.Pos() <= target.Pos() && target.End() <= is.Body.End() {
+				r = true
+			}
+		}
+		return true
+	})
+	return r
+}
+
+// checkPrestatOnlyDirectories (R18.8): fd_prestat_get / fd_prestat_dir_name answer only for pre-opened DIRECTORIES: under
+// the default configuration (no mounts) the stdio entries, which are pre-opens too, must not be reported.
+func checkPrestatOnlyDirectories(c *core.Ctx) {
+	p := c.Pkg("imports/wasi_snapshot_preview1")
+	if p == nil {
+		return
+	}
+	info := p.TypesInfo
+	found := false
+	core.AllFuncDecls(p, func(fd *ast.FuncDecl) {
+		// the helper that tests IsPreopen and IsDir
+		usesPreopen, isDirCall := false, (*ast.CallExpr)(nil)
+		ast.Inspect(fd.Body, func(x ast.Node) bool {
+			if se, ok := x.(*ast.SelectorExpr); ok && se.Sel.Name == "IsPreopen" {
+				usesPreopen = true
+			}
+			if call, ok := x.(*ast.CallExpr); ok {
+				if f := core.Callee(info, call); f != nil && f.Name() == "IsDir" {
+					isDirCall = call
+				}
+			}
+			return true
+		})
+		if !usesPreopen || isDirCall == nil {
+			return
+		}
+		found = true
+		// every branch taken when the entry is not a directory returns a non-zero errno constant
+		ok2 := false
+		var first *ast.IfStmt
+		ast.Inspect(fd.Body, func(x ast.Node) bool {
+			is, ok := x.(*ast.IfStmt)
+			if !ok {
+				return true
+			}
+			cond := core.ExprStr(is.Cond)
+			if !strings.Contains(cond, "!isDir") && !strings.Contains(cond, "isDir == false") {
+				return true
+			}
+			if first == nil || is.Pos() < first.Pos() {
+				first = is
+			}
+			return true
+		})
+		// the FIRST branch a non-directory takes decides; mixed with the errno test (||) the returned errno may be zero
+		if first != nil && !strings.Contains(core.ExprStr(first.Cond), "||") {
+			for _, st := range first.Body.List {
+				if rs, ok := st.(*ast.ReturnStmt); ok && len(rs.Results) >= 2 {
+					if k := constNameOf(info, rs.Results[len(rs.Results)-1]); k != "" && k != "nil" {
+						ok2 = true
+					}
+				}
+			}
+		}
+		c.Check(ok2, "R18.8", "WASI "+fd.Name.Name+": a pre-opened entry that is not a directory is answered with an errno", fd.Pos(),
+			"the not-a-directory branch returns an errno constant",
+			"the not-a-directory case returns the errno of IsDir, which is 0: under the default configuration fd_prestat_get reports stdin, stdout and stderr (pre-opened, not directories) as pre-opened directories with an empty name")
+	})
+	if !found {
+		c.Undecided("R18.8", "pre-open lookup of the WASI functions", 0, "not found")
+	}
+}
